@@ -39,6 +39,9 @@ func init() {
 			}
 			p.Thorough = append(p.Thorough, HRun{Entry: "HarnessC17RefImpliesPath", Args: []int64{int64(L)}, Bound: "all patterns of length L"})
 		}
+		p.Quick = append(p.Quick, HRun{Entry: "HarnessC17Routing", Args: []int64{1}, Bound: "a 1-byte pattern under each of 6 filter keys of 4 events: reported iff the validator belonging to the key rejects it", Require: []string{"checked", "invalid"}},
+			HRun{Entry: "HarnessC17Routing", Args: []int64{2}, Bound: "... 2-byte patterns", Require: []string{"checked", "invalid"}})
+		p.Thorough = append(p.Thorough, HRun{Entry: "HarnessC17Routing", Args: []int64{3}, Bound: "filter-key routing with 3-byte patterns", Require: []string{"checked", "invalid"}})
 		props["C17"] = p
 	}
 
